@@ -12,3 +12,11 @@ import ChessVerif.Props.C11count
 #print axioms ChessVerif.Props.C11.roundtrip_scalars_partial
 #print axioms ChessVerif.Props.C11count.pieceCount_accepts_reachable
 #print axioms ChessVerif.Props.C11count.pieceCount_rejects_unreachable
+#print axioms ChessVerif.Props.C11.parse_print
+#print axioms ChessVerif.Props.C11.roundtrip_full
+#print axioms ChessVerif.Props.C11.print_parse
+#print axioms ChessVerif.Props.C11.print_parse_full
+#print axioms ChessVerif.Props.C11.parse_print_of_wf
+#print axioms ChessVerif.Props.C11.parse_print_placement
+#print axioms ChessVerif.Props.C11.counter_toString
+#print axioms ChessVerif.Props.C11.position_installs_valid_full
